@@ -226,6 +226,25 @@ def run(chk: Check) -> None:
                               f"(a fresh decode gives {want})", {"byte": h, "lsb": lsb, "form": form})
                 break
 
+    # ---- the setpoint word of a schedule record (ramses_rf.system.schedule): whatever value a record carries reads back as that
+    # value - also outside the range the schedule *validator* accepts (a controller may hold what a user could not enter)
+    from ramses_rf.system import schedule as SCHED
+
+    # (the words 0 and 1 are the hot-water off / on flags of the same record format: not setpoints)
+    for k in sorted(set(list(range(41, 10000, 41)) + [2, 449, 450, 499, 500, 501, 3499, 3500, 3501, 3550, 9999, 12799, 32767])):
+        outer = {"zone_idx": "01", "schedule": [{"day_of_week": d, "switchpoints": [{"time_of_day": "06:30", "heat_setpoint": k / 100}]} for d in range(7)]}
+        try:
+            back = SCHED.fragz_to_full_sched(SCHED.full_sched_to_fragz(outer))
+            got = back["schedule"][3]["switchpoints"][0]["heat_setpoint"]
+        except Exception as e:  # noqa: BLE001
+            got = "raised " + type(e).__name__
+        chk.evaluations += 1
+        nt(("sched.sp", k))
+        if got != k / 100:
+            chk.violation("sched.setpoint:" + ("clamped" if isinstance(got, float) else "raises"), f"a schedule record with setpoint {k / 100} reads back as {got!r}",
+                          {"op": "sched.setpoint", "setpoint": k / 100})
+            break
+
     # ---- text -----------------------------------------------------------------------------------------
     alphabet = [chr(c) for c in range(32, 127)]
     for _ in range(400):
